@@ -55,6 +55,7 @@ type Commit struct {
 type upload struct {
 	repo       string
 	data       []byte
+	broke      bool // a closing PUT of this session already broke off once (PutBreaksAfter)
 	undersized bool // a chunk shorter than the announced minimum was received: it has to be the last one
 }
 
@@ -75,6 +76,7 @@ type Registry struct {
 	DigestHeaderOverride string // when set, manifest GET/HEAD announce this digest instead of the real one
 	MinChunk             int    // announced with every upload session (OCI-Chunk-Min-Length); a chunk that follows a shorter one is refused
 	MaxPutBody           int    // a closing PUT that carries more than this many bytes is refused (413); 0 = no limit
+	PutBreaksAfter       int    // >0: the first closing PUT of a session that carries more bytes than this breaks off after that many: the session keeps them and the reply is 500
 
 	// Before runs first for every request. A non-zero result replaces the
 	// normal handling: -1 = transport failure, otherwise that status code.
@@ -443,6 +445,11 @@ func (r *Registry) Do(c *reghttp.Client, ctx context.Context, req *reghttp.Req) 
 				}
 				if r.MaxPutBody > 0 && len(chunk) > r.MaxPutBody {
 					return reply(413, hdr(), nil)
+				}
+				if r.PutBreaksAfter > 0 && len(chunk) > r.PutBreaksAfter && !up.broke {
+					up.broke = true
+					up.data = append(up.data, chunk[:r.PutBreaksAfter]...)
+					return reply(500, nil, nil)
 				}
 				data := append(append([]byte{}, up.data...), chunk...)
 				want := queryGet(u.RawQuery, "digest")
